@@ -515,6 +515,7 @@ impl Engine for ResEngine {
       "probe.did_jwk_resolved".to_owned(),
       "probe.did_jwk_same_key_variants_resolved_together".to_owned(),
       "probe.handlers_replaced_before_use".to_owned(),
+      "probe.wide_list".to_owned(),
     ];
     if tier == "thorough" {
       v.push("cover:perm4>=24".to_owned());
@@ -577,9 +578,20 @@ impl Engine for ResEngine {
       }
     }
 
+    // one run in a hundred resolves MANY distinct DIDs at once (more than any plausible internal window or batch size)
+    let wide = ctx::chance(1, 100);
+    if wide {
+      ctx::stat("probe.wide_list");
+      for k in 0..160 {
+        universe.push((format!("did:{}:w{k}", methods[0]), Expect::Doc(0)));
+      }
+    }
+
     // ---- DID list ----
     // Failure-prone entries are rarer so that all-success lists (the order-independence clause) dominate.
-    let list_len = if ctx::chance(1, 50) {
+    let list_len = if wide {
+      70 + ctx::choose(120)
+    } else if ctx::chance(1, 50) {
       ctx::stat("probe.long_list");
       20 + ctx::choose(30)
     } else {
